@@ -19,7 +19,7 @@ def main():
     seed = d.pop('seed')
     scn = scen.Scenario(name, **d)
     scn['seed'] = seed
-    path = os.path.join(spec['dir'], 'ck.h5')
+    path = os.path.join(spec['dir'], 'ck' + scn['ext'])
     record = spec.get('record', True)
     state = dict(n=0, it=0, digests=[], kinds=[], images=[])
     scen.LOG['on'] = False
